@@ -476,6 +476,11 @@ impl Source for GenSource {
                 }
             }
             5 => self.gen_insert_rr(v, None),
+            6 if rng.chance(1, 3) => Op::InsertText {
+                // the text form of "insert into the question section" (what add_to_question does)
+                section: 0,
+                text: gen_rr_text(rng),
+            },
             6 => {
                 let n = gen_ldh_name(rng);
                 Op::InsertQuestion {
